@@ -29,6 +29,16 @@ OPS = {"multiget": (rfc.GET, True), "multigetnext": (rfc.GETNEXT, True), "multis
 
 
 class V3Unit(WireUnit):
+    def later_calls(self):
+        """the same exchange for the user whose authentication hash is the other one (same passwords, same engine)"""
+        import copy
+        level = getattr(self, "level", None)
+        if not isinstance(level, str) or "-" not in level:
+            return []
+        other = copy.copy(self)
+        other.level = level.replace("md5", "sha1") if "md5" in level else level.replace("sha1", "md5")
+        return [other]
+
     def setup(self, rt, interp):
         WireUnit.setup(self, rt, interp)
         F = z3.Function
